@@ -24,8 +24,9 @@ func init() {
 			"(R2) the expression is anchored with '$' exactly when there is no trailing wildcard, which becomes (/.*)?; " +
 			"(R3) the registration's notion of a path parameter (the constant regexp) accepts every {..} segment the engine's URL tree treats as a parameter; " +
 			"(R4) one expression per supported method of every filter group with that group's URL, manage-all for catch-all filters; one expression per enabled remedy/diagnosis endpoint and manage-all for any enabled global plugin; the default method list covers the methods the engine accepts for an unconstrained filter; " +
-			"(R5) new endpoints are registered (errors returned) before old ones are scheduled for removal, and only the difference is removed. " +
-			"NOT decided: equivalence of the registered regular expression and the trie on all URLs.",
+			"(R5) new endpoints are registered (errors returned) before old ones are scheduled for removal, and only the difference is removed; " +
+			"(R8) the proxy's half of the protocol, read from the directives of haproxy.cfg: each management backend writes the state it stands for (registering lifts skip_all), the endpoints frontend routes method+path to those backends, is_managed is manage-all OR the regex map looked up under METHOD:::url, every SPOE group is sent for managed traffic unless skip_all (the full group exactly when the body is required). " +
+			"NOT decided: HAProxy's own evaluation of those directives; equivalence of the registered regular expression and the trie on all URLs.",
 		RuleText: "obligation = (rule, anchored construct) on SSA + constants of the current tree: sanitiser inventory on the URL's value chain, constant-regexp evaluation with regexp/syntax, loop-coverage conditions, dominance of manage before unmanage",
 		Run:      runC14,
 	})
